@@ -87,6 +87,11 @@ def gen_network(rng, sw):
     obj = {"BIO": 1}
     if rng.random() < 0.15:
         obj = {rng.choice([r["id"] for r in rxns]): 1}
+    if rng.random() < sw.get("p_weighted_objective", 0.25):
+        # weights other than 1 and objectives with two terms
+        obj = {k: rng.choice([2, 3, 0.5, -1]) for k in obj}
+        if rng.random() < 0.4:
+            obj[rng.choice([r["id"] for r in rxns])] = rng.choice([1, 2, -1])
     if rng.random() < sw.get("p_empty_objective", 0.0):
         obj = {}
     direction = "max" if rng.random() < 0.85 else "min"
@@ -227,7 +232,13 @@ def knocked_by_genes(ref, gids):
 
 
 def _frame_fva(df):
-    return {str(i): [_nan(row["minimum"]), _nan(row["maximum"])] for i, row in df.iterrows()}
+    out = {}
+    for i, row in df.iterrows():
+        v = [_nan(row["minimum"]), _nan(row["maximum"])]
+        if str(i) in out and out[str(i)] != v:
+            v = ["rows of a repeated reaction differ", "rows of a repeated reaction differ"]
+        out[str(i)] = v
+    return out
 
 
 def _frame_del(df):
@@ -1006,6 +1017,8 @@ def _gen_call(rng, W, prop):
         if rng.random() < 0.6:
             a["rxns"] = subset(rids)
             a["as_obj"] = rng.random() < 0.5
+            if a["rxns"] and rng.random() < 0.1:
+                a["rxns"].append(rng.choice(a["rxns"]))  # the same reaction requested twice
         base = fba.solve_ref(ref)
         sign_ok = base is not None and base[0].status == "optimal" and (
             (ref.direction == "max" and base[0].value >= 0) or (ref.direction == "min" and base[0].value <= 0))
@@ -1032,6 +1045,8 @@ def _gen_call(rng, W, prop):
             a["l2"] = subset(lst)
             if a.get("l1") is None:
                 a["l1"] = subset(lst)
+        if rng.random() < 0.06:
+            a[rng.choice(["l1", "l2"]) if "double" in kind else "l1"] = []  # given, but empty
         a["as_obj"] = rng.random() < 0.5
         if rng.random() < 0.5:
             a["accessor"] = [{"i": rng.randint(0, 6), "obj": rng.random() < 0.5, "bare": rng.random() < 0.5} for _ in range(2)]
